@@ -25,7 +25,7 @@ def run(ctx):
     R.rule("C07-R1", "include: dependency recorded before the header's source is pushed", floor=2)
     R.rule("C07-R2", "dependency record flows intact into the build file and back", floor=7)
     R.rule("C07-R3", "dependency record written before the binary is published", floor=2)
-    R.rule("C07-R4", "re-hash visits every dependency, detects missing/changed ones and derives a non-cancelling key", floor=6)
+    R.rule("C07-R4", "re-hash visits every dependency, detects missing/changed ones and derives a non-cancelling key; identity when nothing changed", floor=9)
 
     # ---- R1 --------------------------------------------------------------------------
     pi = prog.fn("occa::lang::preprocessor_t::processInclude")
@@ -156,6 +156,25 @@ def run(ctx):
             par = ad.parent.get(par["i"])
         okr = okr and par is not None
     R.ob("C07-R4", okr, ad.q, "changed -> return applyDependencyHash(derived key)", ad.site(rec[0]) if rec else ad.relfile, "on a change the derived key is followed (and its own record checked)")
+    # nothing changed -> the key is the one that was passed in (a stable fixed point: identical builds resolve to the same entry, C06)
+    pk = ad.d["params"][0]["d"]
+    n_id = 0
+    for r in ad.walk():
+        if r["k"] != "ReturnStmt" or not kids(r):
+            continue
+        e = strip(kids(r)[0])
+        while e["k"] in ("CXXConstructExpr", "ImplicitCastExpr", "MaterializeTemporaryExpr", "CXXBindTemporaryExpr") and kids(e):
+            e = strip(kids(e)[0])
+        if is_call(e) and callee(e) == ad.q:
+            continue       # the recursive return, checked above
+        n_id += 1
+        ok = e["k"] == "DeclRefExpr" and e.get("d") == pk
+        R.ob("C07-R4", ok, ad.q, "unchanged -> returns the key it was given", ad.site(r),
+             "identity on every path without a detected change" if ok else
+             "a path without a detected change returns `%s` instead of the key it was given: the first build of a configuration (no record yet) and every later identical build use different keys, "
+             "so identical builds do not resolve to one cache entry" % render(e, False)[:40])
+    if n_id < 2:
+        raise AnalysisBroken("applyDependencyHash: non-recursive returns not found")
     ski = prog.fn("occa::device::setupKernelInfo")
     asg = [n for n in ski.walk() if n["k"] == "CXXOperatorCallExpr" and n.get("op") == "=" and render(kids(n)[1], False) == "kernelHash"]
     ok = bool(asg) and is_call(strip(kids(asg[-1])[2])) and callee(strip(kids(asg[-1])[2])) == "occa::device::applyDependencyHash"
